@@ -635,7 +635,8 @@ func driverCtor(c *Ctx) {
 	}
 	// variable names (array node, list, ASCII variable) and ellipsis placement
 	names := []string{"a", "_", "a1", "1a", "", "a b", "a[0]", "a[0][12]", "a[", "a[]", "a[x]", "a]", "a.b", "...", "...[0]", "...[1][2]", "....", "..", "é", "a-b", "T", "L", "0b1",
-		"a[1]x", "a[-1]", "a[1 ]", "a\n", "...[x]", "...[]", "...[12]"}
+		"a[1]x", "a[-1]", "a[1 ]", "a\n", "...[x]", "...[]", "...[12]",
+		"x[\u0663]", "lot\uff12", "x[0][\uff11]", "_\u0660", "...[\u0661]", "x\u0663", "\u0661x", "a\u00b2"}
 	for ch := 0; ch < 128; ch++ { // every 7-bit character as first and as second character
 		names = append(names, string(rune(ch))+"x", "x"+string(rune(ch)))
 	}
@@ -658,23 +659,23 @@ func driverCtor(c *Ctx) {
 					return ast.NewListNode(ast.NewUintNode(1, "zz9"), ast.NewIntNode(2, n)).FillVariables(map[string]interface{}{"zz9": n})
 				},
 				// ... within one node: a second variable renamed to the first one's name, for every node kind
-				"dupsame": func() ast.ItemNode {
-					k := len(n) % 5
-					if k == 3 && strings.HasPrefix(n, "0b") {
-						k = 0 // for a binary item "0b..." is a literal, not a name
+				"dupsameU": func() ast.ItemNode {
+					return ast.NewUintNode(2, n, "zz9").FillVariables(map[string]interface{}{"zz9": n})
+				},
+				"dupsameI": func() ast.ItemNode {
+					return ast.NewIntNode(4, 1, n, "zz9").FillVariables(map[string]interface{}{"zz9": n})
+				},
+				"dupsameF": func() ast.ItemNode {
+					return ast.NewFloatNode(8, "zz9", n).FillVariables(map[string]interface{}{"zz9": n})
+				},
+				"dupsameB": func() ast.ItemNode {
+					if strings.HasPrefix(n, "0b") {
+						panic("for a binary item 0b... is a literal, not a name: not tried")
 					}
-					vals := map[string]interface{}{"zz9": n}
-					switch k {
-					case 0:
-						return ast.NewUintNode(2, n, "zz9").FillVariables(vals)
-					case 1:
-						return ast.NewIntNode(4, 1, n, "zz9").FillVariables(vals)
-					case 2:
-						return ast.NewFloatNode(8, "zz9", n).FillVariables(vals)
-					case 3:
-						return ast.NewBinaryNode(n, 7, "zz9").FillVariables(vals)
-					}
-					return ast.NewBooleanNode(n, "zz9").FillVariables(vals)
+					return ast.NewBinaryNode(n, 7, "zz9").FillVariables(map[string]interface{}{"zz9": n})
+				},
+				"dupsameT": func() ast.ItemNode {
+					return ast.NewBooleanNode(n, "zz9").FillVariables(map[string]interface{}{"zz9": n})
 				},
 				"dupinsert": func() ast.ItemNode {
 					return ast.NewListNode("zz9", ast.NewIntNode(2, n)).FillVariables(map[string]interface{}{"zz9": ast.NewFloatNode(4, n)})
